@@ -23,6 +23,10 @@ pub struct App {
     pub write_exc: [Option<u8>; 4],
     /// addresses that are not in the tables return a pattern (true) or exception 02 (false)
     pub dense: bool,
+    /// the application does not store what is written but a transformed value (a command register,
+    /// a clamped set-point): registers are stored xor 0x5555, coils inverted. Replies to writes
+    /// are echoes of the request whatever the application does with the value.
+    pub transform: bool,
 }
 
 pub fn pattern_bit(table: u8, addr: u16) -> bool {
@@ -75,7 +79,7 @@ impl App {
             return Err(code);
         }
         self.writable(T_COIL, addr)?;
-        self.bits[0].insert(addr, value);
+        self.bits[0].insert(addr, value ^ self.transform);
         Ok(())
     }
     pub fn write_single_reg(&mut self, addr: u16, value: u16) -> Result<(), u8> {
@@ -83,7 +87,7 @@ impl App {
             return Err(code);
         }
         self.writable(T_HOLDING, addr)?;
-        self.regs[0].insert(addr, value);
+        self.regs[0].insert(addr, if self.transform { value ^ 0x5555 } else { value });
         Ok(())
     }
     pub fn write_multi_coils(&mut self, items: &[(u16, bool)]) -> Result<(), u8> {
@@ -94,7 +98,7 @@ impl App {
             self.writable(T_COIL, *a)?;
         }
         for (a, v) in items {
-            self.bits[0].insert(*a, *v);
+            self.bits[0].insert(*a, *v ^ self.transform);
         }
         Ok(())
     }
@@ -106,7 +110,7 @@ impl App {
             self.writable(T_HOLDING, *a)?;
         }
         for (a, v) in items {
-            self.regs[0].insert(*a, *v);
+            self.regs[0].insert(*a, if self.transform { *v ^ 0x5555 } else { *v });
         }
         Ok(())
     }
